@@ -70,15 +70,15 @@ type c04State struct {
 	ws      *WireSession
 	clock   atomic.Int64
 	mu      sync.Mutex
-	regs    map[int]*c04RegRec      // rid -> stamps
-	rems    map[int]client.Remover  // rid -> Remover
-	used    map[int]bool            // rid -> Remove() already called
-	scripts map[[2]int][]c04Op      // (hid, serial) -> script
-	fired   map[[2]int]bool         // script already performed
-	counts  map[c04Key]map[int]int  // (kind, serial) -> hid -> invocations
-	first   map[c04Key]int64        // (kind, serial) -> first handler entry stamp
-	touched map[c04Key]bool         // a nested op touched set kind while event serial was in flight
-	info    map[int][2]string       // rid -> (kind, lower-cased name): used ONLY to decide how long to wait
+	regs    map[int]*c04RegRec     // rid -> stamps
+	rems    map[int]client.Remover // rid -> Remover
+	used    map[int]bool           // rid -> Remove() already called
+	scripts map[[2]int][]c04Op     // (hid, serial) -> script
+	fired   map[[2]int]bool        // script already performed
+	counts  map[c04Key]map[int]int // (kind, serial) -> hid -> invocations
+	first   map[c04Key]int64       // (kind, serial) -> first handler entry stamp
+	touched map[c04Key]bool        // a nested op touched set kind while event serial was in flight
+	info    map[int][2]string      // rid -> (kind, lower-cased name): used ONLY to decide how long to wait
 	curSer  int
 	started atomic.Int64
 	done    atomic.Int64
